@@ -29,6 +29,10 @@ struct ScopeFiller {
     k: usize,
     loops: usize,
     loop_names: Vec<usize>,
+    /// 0: the declaration / assignment alphabet; 1: the position alphabet (one declaration and
+    /// reads of `x` at every syntactic position an identifier can occur in).
+    alphabet: usize,
+    template: bool,
 }
 
 impl Filler for ScopeFiller {
@@ -37,6 +41,23 @@ impl Filler for ScopeFiller {
         self.ai += 1;
         self.k += 1;
         let k = self.k;
+        if self.alphabet == 1 {
+            return match c {
+                0 => Atom::decl_var_init("x", &k.to_string()).with_idents(vec![("x", Role::Decl)]),
+                1 => Atom::assign("a[x]", &k.to_string()).with_idents(vec![("a", Role::Write), ("x", Role::Read)]),
+                2 => Atom::assign("r", "r + a[x]").with_idents(vec![("r", Role::Write), ("r", Role::Read), ("a", Role::Read), ("x", Role::Read)]),
+                3 if self.template => Atom::new(&format!("c.in[x] <== {k}"), vec![Ev::Assign(format!("c.in[x] <== {k}"))]).with_idents(vec![("c", Role::Write), ("x", Role::Read)]),
+                3 => Atom::assign("r", "g(x, r)").with_idents(vec![("r", Role::Write), ("x", Role::Read), ("r", Role::Read)]),
+                4 => Atom::assign("r", "(x > 0) ? x : r").with_idents(vec![("r", Role::Write), ("x", Role::Read), ("x", Role::Read), ("r", Role::Read)]),
+                5 => {
+                    let mut a = Atom::new("log(x)", vec![]).with_idents(vec![("x", Role::Read)]);
+                    a.span_includes_semi = true;
+                    a
+                }
+                6 => Atom::new(&format!("var b{k}[x]"), vec![Ev::Decl(format!("var b{k}"))]).with_idents(vec![(&format!("b{k}"), Role::Decl), ("x", Role::Read)]),
+                _ => Atom::assign("a[a[x]]", "x").with_idents(vec![("a", Role::Write), ("a", Role::Read), ("x", Role::Read), ("x", Role::Read)]),
+            };
+        }
         match c {
             0 => Atom::decl_var_init("x", &k.to_string()).with_idents(vec![("x", Role::Decl)]),
             1 => Atom::decl_var_init("x_0", &k.to_string()).with_idents(vec![("x_0", Role::Decl)]),
@@ -65,8 +86,21 @@ impl Filler for ScopeFiller {
 }
 
 pub fn build(skel: &[Sk], atoms: &[usize], loop_names: &[usize], params: usize, template: bool) -> Def {
-    let mut filler = ScopeFiller { atoms: atoms.to_vec(), ai: 0, k: 0, loops: 0, loop_names: loop_names.to_vec() };
+    build_with(skel, atoms, loop_names, params, template, 0)
+}
+
+/// Template instantiated by the position alphabet (appended to the file given to the runner).
+pub const SUB: &str = "template Sub(n) {\n    signal input in[n];\n    signal output out;\n    out <== in[0];\n}\nfunction g(u, v) {\n    return u + v;\n}\n";
+
+pub fn build_with(skel: &[Sk], atoms: &[usize], loop_names: &[usize], params: usize, template: bool, alphabet: usize) -> Def {
+    let mut filler = ScopeFiller { atoms: atoms.to_vec(), ai: 0, k: 0, loops: 0, loop_names: loop_names.to_vec(), alphabet, template };
     let mut body = vec![Node::Atom(Atom::decl_var_init("r", "0").with_idents(vec![("r", Role::Decl)]))];
+    if alphabet == 1 {
+        body.push(Node::Atom(Atom::new("var a[4]", vec![Ev::Decl("var a".into())]).with_idents(vec![("a", Role::Decl)])));
+        if template {
+            body.push(Node::Atom(Atom::new("component c = Sub(4)", vec![]).with_idents(vec![("c", Role::Decl)])));
+        }
+    }
     body.extend(instantiate(skel, &mut filler));
     if template {
         let mut a = Atom::new("assert(r)", vec![Ev::Assert("assert(r)".into())]).with_idents(vec![("r", Role::Read)]);
@@ -251,9 +285,12 @@ fn ir_occurrences(cfg: &program_structure::cfg::Cfg, printed: &Printed) -> Vec<(
             // Identifier occurrences of the generator inside this statement's span.
             let first = |role: Role| printed.idents.iter().find(|i| i.role == role && span.start <= i.range.start && i.range.end <= span.end.max(span.start + 1));
             match stmt {
-                Statement::Declaration { names, .. } => {
+                Statement::Declaration { names, dimensions, .. } => {
                     if let Some(i) = first(Role::Decl) {
                         out.push((i.range.start, names.first().clone()));
+                    }
+                    for d in dimensions {
+                        expr_occurrences(d, &mut out);
                     }
                 }
                 Statement::Substitution { var, rhe, .. } => {
@@ -365,7 +402,7 @@ pub fn check(def: &Def, dir: Option<&Path>, case: &Value) -> (Vec<Violation>, bo
     }
     // (3) shadowing warnings through the runner.
     if let Some(dir) = dir {
-        let files = runner::write_project(dir, &[("p.circom", src)]);
+        let files = runner::write_project(dir, &[("p.circom", &format!("{src}{SUB}"))]);
         if let Ok(mut loaded) = runner::load(&files, &[], Curve::Bn254) {
             let lib = loaded.runner.file_library().clone();
             let mut collector = runner::Collector::default();
@@ -455,7 +492,10 @@ pub fn run(run: &Run) {
     let skels = enumerate(opts(max, true));
     run.set_rule(&format!(
         "every skeleton <= {max} statements (blocks, for, bare bodies) x every assignment of 8 atoms {{var x, \
-         var x_0, var y, x = k, x_0 = k, r = r + x, r = r + x_0, x = x_0 + y}} x loop variable in {{x, x_0}} \
+         var x_0, var y, x = k, x_0 = k, r = r + x, r = r + x_0, x = x_0 + y}} and of the 8 position atoms {{var x, \
+         a[x] = k, r = r + a[x], c.in[x] <== k | r = g(x, r), r = (x > 0) ? x : r, log(x), var b[x], a[a[x]] = x}} \
+         (an identifier at every syntactic position: index on either side, after a component access, call \
+         argument, ternary, log argument, dimension) x loop variable in {{x, x_0}} \
          x parameter lists {{(n,x), (n,x_0), (n,x,y)}}, as function and template; repeated parameter \
          names; non-trivial = program with at least one shadowing declaration"
     ));
@@ -472,10 +512,10 @@ pub fn run(run: &Run) {
                 for params in 0..PARAMS.len() {
                     // The runner (3) is exercised on the template variant; the in-process
                     // checks (1), (2) on both.
-                    for template in [false, true] {
-                        let case = json!({"kind": "scope", "max_stmts": max, "index": i, "atoms": atoms, "loops": loops, "params": params, "template": template});
+                    for (template, alphabet) in [(false, 0usize), (true, 0), (false, 1), (true, 1)] {
+                        let case = json!({"kind": "scope", "max_stmts": max, "index": i, "atoms": atoms, "loops": loops, "params": params, "template": template, "alphabet": alphabet});
                         run.watch(&case);
-                        let def = build(skel, &atoms, &loops, params, template);
+                        let def = build_with(skel, &atoms, &loops, params, template, alphabet);
                         if has_bare_declaration(&def.body) {
                             // The grammar does not admit a declaration as an unbraced body.
                             continue;
@@ -541,7 +581,7 @@ pub fn replay(case: &Value) -> Vec<Violation> {
             match skels.get(case["index"].as_u64().unwrap_or(0) as usize) {
                 Some(skel) => {
                     let template = case["template"].as_bool().unwrap_or(true);
-                    let def = build(skel, &get("atoms"), &get("loops"), case["params"].as_u64().unwrap_or(0) as usize, template);
+                    let def = build_with(skel, &get("atoms"), &get("loops"), case["params"].as_u64().unwrap_or(0) as usize, template, case["alphabet"].as_u64().unwrap_or(0) as usize);
                     check(&def, if template { Some(&root) } else { None }, case).0
                 }
                 None => Vec::new(),
